@@ -18,7 +18,11 @@ R = Rules(
         "else; **timer ownership**: every loop.call_later handle created in messagemanager.py is either stored in a "
         "container that MessageManager.shutdown walks calling cancel() on that element, or its callback is inert (only "
         "removes a key from a dict of the same object); late dispatch_error calls return at once when the tables are "
-        "retired; send_message degrades to NON while shutting down.  Facts are located by what the code does: element "
+        "retired; send_message degrades to NON while shutting down; **entries that leave a timer table** (pop, del, "
+        "popitem, replacing the value of a key known to be present) have their handle cancelled on every path on which an "
+        "entry was in fact taken (abstract runs with the table unknown and the entries modelled from the declared "
+        "component types: an int/bytes component may be falsy but is never None, a handle is an object), except in the "
+        "fired timer's own callback; only shutdown replaces a timer table, after reading it.  Facts are located by what the code does: element "
         "flow (of which container is the receiver of cancel()/shutdown() an element: for targets, unpacking, subscripts, "
         "snapshots, comprehensions, generators bound to locals, loop+append builders), forward value flow (where a "
         "removed entry / a timer handle ends up: locals, tuples, helpers, return values at every caller), callables "
@@ -467,6 +471,177 @@ def _handle_owned(ctx, fi, call, walks, owners, depth=0, wrap=()):
     return False
 
 
+def _timer_callback_only(ctx, fi, tkey, depth=0):
+    """Is fi run *only* as the callback of timers whose handle is kept in the table `tkey` (table chain, position)?
+    Then the entry it finds there is the one of the timer that has just fired: there is nothing left to cancel.
+    Every reference to the function must be: the callback argument of a call_later/call_at whose handle is owned by
+    that table (directly, as the function of a functools.partial, or called from a lambda that is that argument), or
+    a call from a function that itself is nothing but such a callback."""
+    if depth > 3:
+        return False
+    name = fi.name
+    refs = []
+    for g in ctx.prog.funcs.values():
+        if g.module is not fi.module:
+            continue
+        for n in walk_with_lambdas(g.node):
+            if fi.parent is not None:
+                if isinstance(n, ast.Name) and n.id == name and isinstance(n.ctx, ast.Load) and (g is fi.parent or g.parent is fi.parent or g is fi):
+                    refs.append((g, n))
+            elif isinstance(n, ast.Attribute) and n.attr == name and isinstance(n.ctx, ast.Load):
+                refs.append((g, n))
+            elif isinstance(n, ast.Name) and n.id == name and isinstance(n.ctx, ast.Load) and fi.cls is None:
+                refs.append((g, n))
+    if not refs:
+        return False
+    for g, r in refs:
+        cfg = cfg_of(g)
+        node, p = r, cfg.parent.get(id(r))
+        via_call = False
+        if isinstance(p, ast.Call) and p.func is node:
+            via_call = True
+            # the call may sit in a lambda that is handed to call_later
+            q = p
+            while q is not None and not isinstance(q, ast.Lambda):
+                q = cfg.parent.get(id(q))
+                if q is g.node:
+                    q = None
+            if q is None:
+                # a plain call from g: g itself must be nothing but such a callback
+                if g is fi or not _timer_callback_only(ctx, g, tkey, depth + 1):
+                    return False
+                continue
+            node, p = q, cfg.parent.get(id(q))
+        if isinstance(p, ast.Call) and K._is_partial(ctx.prog, g, p) and p.args and p.args[0] is node:
+            node, p = p, cfg.parent.get(id(p))
+        # through a local the callable was bound to
+        if isinstance(p, ast.Assign) and len(p.targets) == 1 and isinstance(p.targets[0], ast.Name) and len(writes_to_name(g.node, p.targets[0].id)) == 1:
+            loads = [x for x in walk_with_lambdas(g.node) if isinstance(x, ast.Name) and x.id == p.targets[0].id and isinstance(x.ctx, ast.Load)]
+            if len(loads) != 1:
+                return False
+            node, p = loads[0], cfg.parent.get(id(loads[0]))
+        if not (isinstance(p, ast.Call) and isinstance(p.func, ast.Attribute) and p.func.attr in ("call_later", "call_at") and len(p.args) > 1 and p.args[1] is node):
+            return False
+        if not _handle_owned(ctx, g, p, {tkey}, set()):
+            return False
+    return True
+
+
+_REMOVING = ("pop", "popitem", "delitem", "setitem", "setdefault", "__setitem__", "__delitem__", "update")
+_DROPPING = ("assign", "clear", "del")
+
+
+@R.clause("C18.i", "an entry that leaves a timer table takes its timer along: whatever removes or replaces an entry of a table whose handles shutdown cancels, cancels that entry's handle on every path on which an entry was in fact taken (unless it is the fired timer's own callback)")
+def i_taken_entries(ctx):
+    """C18.d shows that every timer handle is *put* where shutdown will find it; this clause shows that it is still
+    there -- or dead -- when shutdown comes.  An independently written breaking change turned `if key in table: (mid,
+    handle) = table.pop(key); handle.cancel()` into `mid, handle = table.pop(key, (None, None)); if mid: handle.cancel()`:
+    for the legal message ID 0 the superseded empty-ACK timer left the table armed, and fired after shutdown.
+
+    Every function of the message layer that takes entries out of such a table is run in the checker's own interpreter
+    with the table unknown (each key present or absent) and entries modelled from what the table is declared to hold
+    (the handle: an object; an int / bytes component: never None, possibly falsy).  On no run may an entry be removed
+    (pop, del, popitem) or knowingly replaced (store to a key the run has seen present) without cancel() on its
+    handle.  Replacing the whole table is left to shutdown, after its cancel walk has read it."""
+    sh = ctx.prog.func(MM + "shutdown")
+    ci = ctx.prog.cls("messagemanager.MessageManager")
+    walks = _cancel_walks(ctx, sh)
+    ctx.floor("timer tables whose handles MessageManager.shutdown cancels", len(walks), 1)
+    import functools
+    nsites = 0
+    nruns = 0
+    for tkey in sorted(walks, key=str):
+        chain_text, pos = tkey
+        ctx.need(chain_text.startswith("self.") and chain_text.count(".") == 1, "timer table %s is a field of the message manager" % chain_text)
+        field = chain_text.split(".", 1)[1]
+        models = K.table_models(ctx.prog, ci, field, pos)
+        ctx.need(models is not False, "shape of the entries of %s (annotation, or tuples of one arity stored into it)" % chain_text)
+        info = K.TimerInfo(ctx.prog, ci, field, pos, models)
+        todo = []
+        for fi in info.funcs:
+            if fi.name == "__init__":
+                continue
+            hits = stores_to(fi.node, chain_text, nested=False)
+            if any(k in _REMOVING for k, n in hits):
+                todo.append((fi, 0))
+            for k, n in hits:
+                if k in _DROPPING:
+                    _whole_table_drop(ctx, fi, sh, chain_text, k, n)
+        done = set()
+        while todo:
+            fi, lvl = todo.pop(0)
+            if fi.qn in done:
+                continue
+            done.add(fi.qn)
+            own = _timer_callback_only(ctx, fi, tkey)
+            a = fi.node.args
+            names = [x.arg for x in a.posonlyargs + a.args + a.kwonlyargs] + [x.arg for x in (a.vararg, a.kwarg) if x is not None]
+
+            def make_env(names=names):
+                env = {"self": K.Obj("self", **{field: K.TimerTable(field, pos, models)})}
+                for p in names:
+                    if p not in ("self", "cls"):
+                        env[p] = K.Unk(p)
+                return env
+
+            runs = K.explore(ctx.prog, fi, make_env, {}, {}, {}, skip_methods=info.skip_methods, max_runs=6000, record_all=True,
+                             machine=functools.partial(K.TimerMachine, info=info))
+            nruns += len(runs)
+            # every removal the function spells out was executed on some run (else it is not decided, and saying
+            # nothing would be a verdict): lambdas are callables of their own (timer callbacks), not part of the run
+            seen = set()
+            for m in runs:
+                seen |= m.visited_calls
+            in_lambda = {id(x) for l in walk_no_nested(fi.node) if isinstance(l, ast.Lambda) for x in ast.walk(l)}
+            for k, n in stores_to(fi.node, chain_text, nested=False):
+                if k not in ("pop", "popitem", "delitem", "__delitem__") or id(n) in in_lambda:
+                    continue
+                parts = [n] + ([t for t in n.targets] if isinstance(n, ast.Delete) else [])
+                ctx.need(any(id(x) in seen for x in parts), "the removal `%s` in %s is reached by a run of the checker's interpreter" % (stmt_text(n, 60), fi.short))
+            sites = {}
+            for m in runs:
+                loose = m.loose()
+                if own and len(loose) <= 1:
+                    loose = []  # the fired timer's own entry
+                for n, how, site, node in m.taken:
+                    sites.setdefault(id(site), [site, how, None])
+                for n, how, site, node, fate in loose:
+                    if fate == "returned":
+                        if lvl < 2:
+                            todo.extend((f2, lvl + 1) for f2, c2 in K.callers_of(ctx.prog, fi))
+                        continue
+                    if fate == "escaped":
+                        ctx.note("%s: an entry taken out of %s is handed to code the checker cannot follow (not decided)" % (fi.short, chain_text))
+                        continue
+                    if sites[id(site)][2] is None:
+                        sites[id(site)][2] = (how, ", ".join("%s=%s" % d for d in m.decisions) or "none")
+            for site, how, bad in sites.values():
+                nsites += 1
+                node = site if site is not None else fi.node
+                if bad is None:
+                    ctx.ob("an entry taken out of %s has its timer cancelled on every path" % chain_text, True, fi, node)
+                else:
+                    ctx.ob("an entry taken out of %s has its timer cancelled on every path" % chain_text, False, fi, node,
+                           detail="entry %s, its handle never cancelled (a pending timer shutdown no longer finds); open conditions: %s" % bad)
+    ctx.extra["timer_table_runs"] = nruns
+    ctx.floor("sites that take entries out of timer tables", nsites, 3)
+
+
+def _whole_table_drop(ctx, fi, sh, chain_text, kind, node):
+    """`self.table = ...` / `self.table.clear()`: every entry leaves at once.  Only shutdown may do that (its cancel
+    walk over the table is C18.d), and only once the walk has *read* the table: no read of the field after the drop."""
+    if fi is not sh:
+        ctx.ob("only shutdown (which cancels every handle) replaces or clears the timer table %s" % chain_text, False, fi, node,
+               detail="%s outside MessageManager.shutdown drops entries whose timers stay armed" % kind)
+        return
+    cfg = cfg_of(fi)
+    after = cfg.reach(set(cfg.locate(node)), skip_labels=("exc",))
+    late = [n for n in walk_with_lambdas(fi.node) if isinstance(n, ast.Attribute) and isinstance(n.ctx, ast.Load) and chain(n) == chain_text
+            and any(x in after for x in cfg.locate(n))]
+    ctx.ob("shutdown reads the timer table %s (to cancel its handles) before it drops it, not after" % chain_text, not late, fi, node,
+           detail=None if not late else "read after the drop: %s" % stmt_text(late[0], 60))
+
+
 @R.clause("C18.g", "every running server handler is in the table shutdown drains: a request overriding the same (token, remote) stops and removes the old entry before the new one is stored (shared with C08.e)")
 def g_shared(ctx):
     """TokenManager.shutdown can only cancel the handlers it finds in incoming_requests.  An independently written
@@ -641,3 +816,13 @@ R.seed("C18.g", F_TM, "            (pipe, stop) = self.incoming_requests.pop(key
 
 R.seed("C18.h", F_TM, "class TokenManager(interfaces.RequestInterface, interfaces.TokenManager):\n", "class TokenManager(interfaces.RequestInterface, interfaces.TokenManager):\n    outgoing_requests = {}\n    incoming_requests = {}\n", "class-level tables (shared by every context as soon as __init__ stops shadowing them)")
 R.seed("C18.h", F_TM, "        self.outgoing_requests = {}\n", "        self.outgoing_requests = type(self)._shared_outgoing\n", "table shared between all token managers")
+
+# C18.i: an entry that leaves a timer table takes its timer along
+R.seed("C18.i", F_MM, "                mid, old_handle = self._piggyback_opportunities.pop(key)\n                old_handle.cancel()\n", "                mid, old_handle = self._piggyback_opportunities.pop(key)\n                if mid:\n                    old_handle.cancel()\n", "truthiness of the legal message ID 0 decides whether the superseded empty-ACK timer is cancelled")
+R.seed("C18.i", F_MM, "            if key in self._piggyback_opportunities:\n", "            if self._piggyback_opportunities.get(key, (None, None))[0]:\n", "presence of the superseded entry tested by the truthiness of its message ID: for MID 0 the live entry is overwritten, its timer stays armed")
+R.seed("C18.i", F_MM, "                mid, old_handle = self._piggyback_opportunities.pop(key)\n                old_handle.cancel()\n", "                pass\n", "a live piggy-back entry is knowingly overwritten without cancelling its timer")
+R.seed("C18.i", F_MM, "                mid, handle = self._piggyback_opportunities.pop(piggyback_key)\n                handle.cancel()\n", "                mid, handle = self._piggyback_opportunities.pop(piggyback_key)\n", "piggy-backed response leaves the empty-ACK timer armed outside the table")
+R.seed("C18.i", F_MM, "        next_retransmission.cancel()\n        if message.mtype is RST:\n", "        if message.mtype is RST:\n            next_retransmission.cancel()\n", "retransmission timer of an ACKed exchange cancelled on the RST path only")
+R.seed("C18.i", F_MM, "            (messageerror_monitor, cancellable_timeout) = self._active_exchanges.pop(k)\n            cancellable_timeout.cancel()\n", "            del self._active_exchanges[k]\n", "exchanges of a failed remote dropped with del, timers left running")
+R.seed("C18.i", F_MM, "        for _mid, empty_ack_timeout in self._piggyback_opportunities.values():\n            # The requests these would acknowledge have been stopped already;\n            # sending after the transport is gone would only raise.\n            empty_ack_timeout.cancel()\n        self._piggyback_opportunities = {}\n", "        self._piggyback_opportunities = {}\n        for _mid, empty_ack_timeout in self._piggyback_opportunities.values():\n            empty_ack_timeout.cancel()\n", "table replaced before the cancel walk reads it: the walk sees the new, empty dict")
+R.seed("C18.i", F_MM, "        self._backlogs.pop(remote, ())\n        # while that's an iterable", "        self._backlogs.pop(remote, ())\n        self._piggyback_opportunities.clear()\n        # while that's an iterable", "a network error forgets every pending empty-ACK timer without cancelling it")
